@@ -123,9 +123,12 @@ fn cycle_source(blocks: usize, r: usize, kind: usize) -> String {
 /// (harmless first / circular second and the other way round). Undetected, the analyzer's passes grow the
 /// definition m-fold each; with m = 1 nothing grows and the program only has to be refused or lowerable (C13).
 pub fn cycle_shapes() -> Vec<(String, String, usize)> {
-    let contexts: [(&str, fn(&str) -> String); 17] = [
+    let contexts: [(&str, fn(&str) -> String); 20] = [
         ("plain", |n| n.to_string()),
         ("add", |n| format!("{n} + 1")),
+        ("add-rhs", |n| format!("1 + {n}")),
+        ("sub", |n| format!("{n} - 1")),
+        ("sub-rhs", |n| format!("q - ({n})")),
         ("negate", |n| format!("!{n}")),
         ("property-operand", |n| format!("{n}.counter")),
         ("index", |n| format!("xs[{n}]")),
@@ -385,7 +388,7 @@ impl Prop for C12 {
              every execution with <= {} deviations (other alternative / optional present / 1-2 repetitions / other literal from the boundary alphabets) \
              inside the rule is derived, depth <= 12; (2) token mutation: every token of every example program ({}) x {{delete, duplicate, swap, \
              replace by each of 24 tokens, literal stretching}}; (3) nesting: 9 recursive shapes x every depth 1..64; (4) cycles of mutually referring \
-             inputs / locals, and self-referring definitions in 17 expression contexts x 7 ways of closing the cycle (itself, a second local, an input's min_amount / redeemer / ref, a name bound twice) x 1, 2, 3, 6, 12 mentions; (5) definition shapes: all type graphs over two records x five alias forms, policy / asset definitions over 10 expressions x 5 contexts. Each string: parse_string, then analyze if it parsed. Non-trivial = the call sequence ran (returned, panicked or was killed); \
+             inputs / locals, and self-referring definitions in 20 expression contexts (either side of + and -) x 7 ways of closing the cycle (itself, a second local, an input's min_amount / redeemer / ref, a name bound twice) x 1, 2, 3, 6, 12 mentions; (5) definition shapes: all type graphs over two records x five alias forms, policy / asset definitions over 10 expressions x 5 contexts. Each string: parse_string, then analyze if it parsed. Non-trivial = the call sequence ran (returned, panicked or was killed); \
              distinct = distinct source strings.",
             grammar_k(tier),
             if tier.is_thorough() { "all files" } else { "files whose analysis is fast" }
